@@ -422,6 +422,9 @@ def run(tier, seed, replay=None):
         fo0 = fams[(f, "raw")]
         out = {"failing": 0}
         prog_g, obs_g, dist = fo0.generate(seed, count[f], extra=gen_extra[f], prefix=f[0])
+        # the broadcast probe of C01 is not part of the pointer replay (the h11_* copies do not implement it)
+        prog_g = "".join(l for l in prog_g.splitlines(True) if not l.startswith("bprobe"))
+        obs_g = "".join(l for l in obs_g.splitlines(True) if not l.startswith("Q "))
         obs_g = fo0._norm(obs_g)
         prog, obs = prog_g, obs_g
         dist = dict(dist)
